@@ -59,6 +59,9 @@ pub enum HOp {
     CherryPick { branch: u8, count: u8, no_commit: bool, resolve: Resolve },
     MergeSquash { branch: u8, resolve: Resolve },
     Merge { branch: u8, resolve: Resolve },
+    /// server-side squash merge made with plain git (no git-ai involved), followed by the
+    /// CI rewrite `git-ai squash-authorship <base branch> <new sha> <old sha>`
+    CiSquash { branch: u8 },
     ResetSoft { back: u8, recommit: bool },
     ResetMixed { back: u8, recommit: bool },
     ResetHard { back: u8 },
@@ -114,6 +117,7 @@ impl HOp {
             HOp::CherryPick { .. } => "cherry-pick",
             HOp::MergeSquash { .. } => "merge-squash",
             HOp::Merge { .. } => "merge",
+            HOp::CiSquash { .. } => "ci-squash",
             HOp::ResetSoft { .. } => "reset-soft",
             HOp::ResetMixed { .. } => "reset-mixed",
             HOp::ResetHard { .. } => "reset-hard",
@@ -276,6 +280,35 @@ pub fn diverge_block(edit: impl Strategy<Value = Edit> + Clone) -> impl Strategy
         })
 }
 
+/// The everyday rewrite shape: a topic branch of 2-4 small commits (each 1-2 edits by
+/// people and agents, often on the same file), an upstream that moved on by 1-2 commits,
+/// and then - immediately - one rewriting operation applied to exactly that shape.
+pub fn rewrite_scenario_block(edit: impl Strategy<Value = Edit> + Clone + 'static) -> impl Strategy<Value = Vec<HOp>> {
+    let chunk_a = proptest::collection::vec(edit_op(edit.clone()), 1..=2);
+    let chunk_b = proptest::collection::vec(edit_op(edit), 1..=2);
+    let tail = prop_oneof![
+        6 => (0u8..4, rebase_kind(), resolve()).prop_map(|(target, kind, resolve)| vec![HOp::SwitchPrev, HOp::Rebase { target, kind, resolve }]),
+        3 => (0u8..4, 1u8..5, resolve()).prop_map(|(branch, count, resolve)| vec![HOp::CherryPick { branch, count, no_commit: false, resolve }]),
+        2 => (0u8..4, resolve()).prop_map(|(branch, resolve)| vec![HOp::MergeSquash { branch, resolve }]),
+        2 => (1u8..4, any::<bool>()).prop_map(|(back, soft)| vec![HOp::SwitchPrev, if soft { HOp::ResetSoft { back, recommit: true } } else { HOp::ResetMixed { back, recommit: true } }]),
+        1 => (0u8..4).prop_map(|branch| vec![HOp::CiSquash { branch }]),
+    ];
+    (0u8..2, proptest::collection::vec(chunk_a, 2..=4), proptest::collection::vec(chunk_b, 1..=2), tail).prop_map(|(back, topic, upstream, tail)| {
+        let mut v = vec![HOp::Fork { back }];
+        for c in topic {
+            v.extend(c);
+            v.push(HOp::Commit);
+        }
+        v.push(HOp::SwitchPrev);
+        for c in upstream {
+            v.extend(c);
+            v.push(HOp::Commit);
+        }
+        v.extend(tail);
+        v
+    })
+}
+
 /// uncommitted work is stashed, HEAD optionally moves, and the stash is restored
 pub fn stash_block(edit: impl Strategy<Value = Edit> + Clone) -> impl Strategy<Value = Vec<HOp>> {
     (
@@ -321,8 +354,9 @@ pub fn destructive_op() -> impl Strategy<Value = HOp> {
         2 => (0u8..4, resolve()).prop_map(|(branch, resolve)| HOp::Merge { branch, resolve }),
         1 => (0u8..4).prop_map(|branch| HOp::BranchDelete { branch }),
         2 => (0u8..8).prop_map(|mask| HOp::CommitFiles { mask }),
+        2 => (0u8..4).prop_map(|branch| HOp::CiSquash { branch }),
     ];
-    prop_oneof![14 => a, 10 => b]
+    prop_oneof![14 => a, 12 => b]
 }
 
 #[derive(Clone, Copy, Debug, Default)]
@@ -379,6 +413,8 @@ pub struct Engine {
     pub ai_committed: bool,
     /// a stash was restored onto a HEAD that changed one of the stashed files (F2)
     pub pending_stash_shifted: bool,
+    /// pending work went through a stash round trip since the last commit (F40)
+    pub pending_from_stash: bool,
     pub preserving_ops_with_ai: u32,
     /// root cause of a known finding that is in effect for the current pending
     /// state; misattribution signatures are re-keyed to it until a clean commit
@@ -395,6 +431,8 @@ pub struct Engine {
     pub carry_over: bool,
     /// layout last forced on refs/notes/ai by a Relayout op (None = git's own)
     pub forced_layout: Option<u8>,
+    /// number of violations already recorded when `known_taint` was set
+    pub taint_from: usize,
     /// collect `git-ai stats --json` of every commit at the end (C12)
     pub want_stats: bool,
 }
@@ -414,6 +452,8 @@ pub fn is_misattribution_sig(s: &str) -> bool {
             | "recommitted-line-attributed-to-uninvolved-session" | "unknown-line-attributed-to-ai"
     ) || t.starts_with("attribution-lost-by-")
         || t.starts_with("attribution-invented-by-")
+        || t.starts_with("attribution-changed-session-by-")
+        || t.starts_with("attribution-carried-to-wrong-session-by-")
         || t.starts_with("attribution-not-carried-by-")
 }
 
@@ -466,6 +506,7 @@ impl Engine {
             ai_pending: false,
             ai_committed: false,
             pending_stash_shifted: false,
+            pending_from_stash: false,
             preserving_ops_with_ai: 0,
             known_taint: None,
             conflict_keys: BTreeSet::new(),
@@ -473,6 +514,7 @@ impl Engine {
             initial_files: BTreeSet::new(),
             carry_over: false,
             forced_layout: None,
+            taint_from: 0,
             want_stats: false,
         };
         e.known_commits = e.all_commits();
@@ -853,6 +895,19 @@ impl Engine {
                         v.sig = sig(self.pid, t);
                     }
                 }
+                if self.pending_from_stash && v.sig.ends_with(":human-line-reported-ai") {
+                    // F40: the stash note is built with a projection that counts an agent's
+                    // white-space-only re-touch of a person's pending line as authorship
+                    let ws_only = v
+                        .key
+                        .as_ref()
+                        .and_then(|k| self.w.model.map.get(k))
+                        .map(|e| e.last == Actor::Human && e.ws_touchers.iter().any(|a| a.is_ai()))
+                        .unwrap_or(false);
+                    if ws_only {
+                        v.sig = sig(self.pid, "stash-credits-whitespace-retouch-to-session");
+                    }
+                }
                 if self.pending_stash_shifted && v.sig.ends_with(":ai-line-reported-human") {
                     // F2: stash note line numbers are restored without remapping
                     v.sig = sig(self.pid, "stash-restored-onto-changed-file-loses-attribution");
@@ -988,6 +1043,7 @@ impl Engine {
                 self.ai_pending = false;
                 self.pending_tainted = false;
                 self.pending_stash_shifted = false;
+                self.pending_from_stash = false;
                 self.pending_file_state.clear();
                 self.initial_files.clear();
                 true
@@ -1104,6 +1160,91 @@ impl Engine {
 
     /// Apply the sticky known-finding taint / conflict-zone classification to
     /// violations raised outside run_op (final checks).
+    /// A listed defect has just corrupted carried attribution: misattributions recorded
+    /// from here on in this case are follow-on symptoms of it (sticky taint).
+    fn set_taint(&mut self, t: &'static str, rep: &CaseReport) {
+        if self.known_taint.is_none() {
+            self.known_taint = Some(t);
+            self.taint_from = rep.violations.len();
+        }
+    }
+
+    /// F37 shape: the line with this key was added by a commit that a rebase / cherry-pick
+    /// re-created, inside a contiguous run of added lines that also holds a line written by
+    /// an agent. The slow path relabels the whole inserted block (one placeholder range) with
+    /// the author it finds for any line of it, so a person's line in the same block takes
+    /// the agent's session.
+    fn in_rewritten_block_with_agent_line(&mut self, key: &str) -> bool {
+        for p in self.w.tree_paths("HEAD") {
+            let Some(lines) = self.w.lines_at("HEAD", &p) else { continue };
+            if !lines.iter().any(|l| key_of(l) == key) {
+                continue;
+            }
+            let bc = self.w.blame_commit_by_key(&p);
+            let Some(c) = bc.get(key).cloned() else { continue };
+            if !self.produced_by.get(&c).map(|k| k.starts_with("rebase") || k.starts_with("cherry-pick")).unwrap_or(false) {
+                continue;
+            }
+            let parent = self.w.first_parent(&c);
+            let added = self.w.added_lines(&parent, &c, &p);
+            let Some(cl) = self.w.lines_at(&c, &p) else { continue };
+            let Some(idx) = cl.iter().position(|l| key_of(l) == key) else { continue };
+            let n = idx as u32 + 1;
+            if !added.contains(&n) {
+                continue;
+            }
+            let mut lo = n;
+            while lo > 1 && added.contains(&(lo - 1)) {
+                lo -= 1;
+            }
+            let mut hi = n;
+            while added.contains(&(hi + 1)) {
+                hi += 1;
+            }
+            for m in lo..=hi {
+                if m == n {
+                    continue;
+                }
+                if let Some(t) = cl.get((m - 1) as usize) {
+                    if let Some(e) = self.w.model.map.get(&key_of(t)) {
+                        if e.last.is_ai() || e.writers.iter().any(|a| a.is_ai()) {
+                            return true;
+                        }
+                    }
+                }
+            }
+        }
+        false
+    }
+
+    /// Re-key the misattributions recorded since `from` that have the F37 shape.
+    fn rekey_slow_path_block(&mut self, rep: &mut CaseReport, from: usize) {
+        let mut hit = false;
+        for i in from..rep.violations.len() {
+            let s = rep.violations[i].sig.clone();
+            let t = s.split_once(':').map(|x| x.1).unwrap_or(&s).to_string();
+            let human_to_ai = t.starts_with("attribution-invented-by-")
+                || t.starts_with("attribution-changed-session-by-")
+                || t.starts_with("attribution-carried-to-wrong-session-by-")
+                || t == "human-line-reported-ai"
+                || t == "wrong-session"
+                || t == "line-attributed-to-session-that-never-wrote-it"
+                || t == "recommitted-line-attributed-to-uninvolved-session";
+            if !human_to_ai {
+                continue;
+            }
+            let Some(k) = rep.violations[i].key.clone() else { continue };
+            if self.in_rewritten_block_with_agent_line(&k) {
+                rep.violations[i].sig = sig(self.pid, "full-recomputation-misattributes-lines-the-copied-note-has-right");
+                hit = true;
+            }
+        }
+        if hit {
+            // the wrong note stays: later reports about these lines are the same defect
+            self.set_taint("full-recomputation-misattributes-lines-the-copied-note-has-right", rep);
+        }
+    }
+
     pub fn finish_taint(&mut self, rep: &mut CaseReport) {
         for v in rep.violations.iter_mut() {
             if is_misattribution_sig(&v.sig) && v.key.as_ref().map(|k| self.conflict_keys.contains(k)).unwrap_or(false) {
@@ -1111,7 +1252,8 @@ impl Engine {
             }
         }
         if let Some(t) = self.known_taint {
-            for v in rep.violations.iter_mut() {
+            let from = self.taint_from;
+            for v in rep.violations.iter_mut().skip(from) {
                 if is_misattribution_sig(&v.sig) {
                     v.sig = sig(self.pid, t);
                 }
@@ -1139,7 +1281,7 @@ impl Engine {
         {
             // F13: batch note look-ups know only the flat and the one-level path
             rep.class("rewrite-under-deep-notes-fanout");
-            self.known_taint = Some("deep-notes-fanout-not-found-by-batch-lookup");
+            self.set_taint("deep-notes-fanout-not-found-by-batch-lookup", rep);
         }
         match op {
             HOp::Edit { actor, file, edit } => {
@@ -1159,7 +1301,7 @@ impl Engine {
                         if self.initial_files.contains(&p) && self.known_taint.is_none() {
                             // F33
                             rep.class("human-edit-on-file-with-carried-over-initial");
-                            self.known_taint = Some("initial-attribution-not-remapped-after-uncheckpointed-human-edit");
+                            self.set_taint("initial-attribution-not-remapped-after-uncheckpointed-human-edit", rep);
                         }
                     }
                 }
@@ -1431,7 +1573,7 @@ impl Engine {
                 }
                 if unstaged_removal_above && self.known_taint.is_none() {
                     rep.class("unstaged-removal-above-staged-hunk");
-                    self.known_taint = Some("unstaged-deletion-above-staged-lines-shifts-attribution");
+                    self.set_taint("unstaged-deletion-above-staged-lines-shifts-attribution", rep);
                 }
                 let sha = self.w.sb.real_git_stdin(&self.w.repo.clone(), &["hash-object", "-w", "--stdin"], &outb).out_trim();
                 let o = self.w.rgit(&["update-index", "--add", "--cacheinfo", &format!("100644,{sha},{p}")]);
@@ -1467,14 +1609,14 @@ impl Engine {
                 if self.dirty() && self.pending_file_state.values().any(|(_, human_unckpt)| *human_unckpt) && self.known_taint.is_none() {
                     // F29: edits by a person that no checkpoint has seen yet
                     rep.class("amend-after-uncheckpointed-human-edit");
-                    self.known_taint = Some("amend-after-human-edit-keeps-old-line-numbers");
+                    self.set_taint("amend-after-human-edit-keeps-old-line-numbers", rep);
                 }
                 if *stage_all {
                     self.w.git(&["add", "-A"]);
                 } else if self.dirty() && self.known_taint.is_none() {
                     // F26
                     rep.class("amend-with-unstaged-changes");
-                    self.known_taint = Some("amend-with-unstaged-changes-misplaces-attribution");
+                    self.set_taint("amend-with-unstaged-changes-misplaces-attribution", rep);
                 }
                 let before = self.w.head();
                 let parents = self.w.rgit(&["rev-list", "--parents", "-n", "1", "HEAD"]).out();
@@ -1579,6 +1721,16 @@ impl Engine {
                     out.class = OpClass::Skipped;
                     return out;
                 }
+                let viol_before = rep.violations.len();
+                // F41 shape: a squash/fixup rebase onto a branch that already holds cherry-picked
+                // copies of commits from the range being rebased
+                let onto_cherry_picked_copies = matches!(rk, RebaseKind::Squash | RebaseKind::Fixup)
+                    && self
+                        .w
+                        .rgit(&["rev-list", &format!("HEAD..{t}")])
+                        .out()
+                        .lines()
+                        .any(|c| self.produced_by.get(c.trim()).map(|k| k.starts_with("cherry-pick")).unwrap_or(false));
                 let snap = self.checks.preservation.then(|| self.ai_snapshot());
                 let digest = self.checks.abort_invariance.then(|| self.state_digest());
                 let o = match rk {
@@ -1590,7 +1742,7 @@ impl Engine {
                     other => {
                         if *other == RebaseKind::Reorder && ahead >= 2 && self.known_taint.is_none() {
                             // F32: notes follow the commits by position, not by identity
-                            self.known_taint = Some("rebase-reorder-maps-notes-by-position");
+                            self.set_taint("rebase-reorder-maps-notes-by-position", rep);
                         }
                         let script = self.write_seq_script(*other);
                         self.w.git_env(&["rebase", "-i", &t], &[("GIT_SEQUENCE_EDITOR", &script), ("GIT_EDITOR", "true")])
@@ -1601,7 +1753,7 @@ impl Engine {
                     // stopped for editing: amend the commit with a human tweak, continue
                     rep.class("rebase-edit-stop");
                     // F27
-                    self.known_taint = Some("rebase-edit-amend-uses-stale-line-numbers");
+                    self.set_taint("rebase-edit-amend-uses-stale-line-numbers", rep);
                     let p = self.path_of(0);
                     if self.w.repo.join(&p).exists() {
                         self.w.resync_from_worktree();
@@ -1628,6 +1780,15 @@ impl Engine {
                     }
                     if self.checks.safety {
                         self.check_safety(rep, kind);
+                    }
+                    self.rekey_slow_path_block(rep, viol_before);
+                    if onto_cherry_picked_copies {
+                        rep.class("squash-rebase-onto-cherry-picked-copies");
+                        for v in rep.violations.iter_mut().skip(viol_before) {
+                            if v.sig.contains(":attribution-lost-by-rebase-i-") || v.sig.ends_with(":ai-line-reported-human") {
+                                v.sig = sig(self.pid, "squash-rebase-onto-cherry-picked-copies-loses-attribution");
+                            }
+                        }
                     }
                 }
             }
@@ -1667,7 +1828,8 @@ impl Engine {
                     return out;
                 };
                 let avail = self.w.rgit(&["rev-list", "--count", &format!("HEAD..{b}")]).out_trim().parse::<u32>().unwrap_or(0);
-                let n = (*count as u32).clamp(1, avail.min(2));
+                let n = (*count as u32).clamp(1, avail.clamp(1, 4));
+                let viol_before = rep.violations.len();
                 let snap = self.checks.preservation.then(|| self.ai_snapshot());
                 let src_snap: Option<BTreeMap<String, String>> = None;
                 let _ = src_snap;
@@ -1713,6 +1875,7 @@ impl Engine {
                     if self.checks.safety {
                         self.check_safety(rep, kind);
                     }
+                    self.rekey_slow_path_block(rep, viol_before);
                 }
             }
             HOp::MergeSquash { branch, resolve } => {
@@ -1763,8 +1926,49 @@ impl Engine {
                     }
                 }
                 if out.conflicted && out.ok && self.known_taint.is_none() {
-                    self.known_taint = Some("squash-merge-with-conflict-loses-attribution");
+                    self.set_taint("squash-merge-with-conflict-loses-attribution", rep);
                 }
+                if self.checks.safety {
+                    self.check_safety(rep, kind);
+                }
+            }
+            HOp::CiSquash { branch } => {
+                // the CI rewrite is not in C02's list of preserving operations: it is driven
+                // for the safety clause (C03), the note invariants (C05) and the prompt policy (C08)
+                out.class = OpClass::Destructive;
+                if self.w.sb.mode != Mode::Wrapper {
+                    out.class = OpClass::Skipped;
+                    return out;
+                }
+                self.autocommit_if_dirty(rep);
+                let cands = self.other_branches(true, false);
+                let (Some(b), Some(cur)) = (Self::pick(&cands, *branch).cloned(), self.current_branch()) else {
+                    out.class = OpClass::Skipped;
+                    return out;
+                };
+                let old = self.w.rev(&b).unwrap_or_default();
+                self.w.rgit(&["merge", "--squash", &b]);
+                if !self.unmerged_paths().is_empty() || old.is_empty() {
+                    // a hosting service refuses to squash-merge a conflicting branch
+                    self.w.rgit(&["reset", "--hard", "-q"]);
+                    self.w.resync_from_worktree();
+                    out.class = OpClass::Skipped;
+                    return out;
+                }
+                let c = self.w.rgit(&["commit", "-q", "-m", "squash merge made by the hosting service"]);
+                if !c.ok() {
+                    self.w.rgit(&["reset", "--hard", "-q"]);
+                    self.w.resync_from_worktree();
+                    out.class = OpClass::Skipped;
+                    return out;
+                }
+                let new = self.w.head();
+                let o = self.w.gai(&["squash-authorship", &cur, &new, &old]);
+                out.ok = o.ok();
+                rep.class("ci-squash-authorship");
+                self.w.resync_from_worktree();
+                self.register_new_commits(kind);
+                self.pending_tainted = false;
                 if self.checks.safety {
                     self.check_safety(rep, kind);
                 }
@@ -1847,7 +2051,7 @@ impl Engine {
                     // F31: the pre-stash checkpoint does not see unstaged edits a person made
                     // after the last agent checkpoint of the file
                     rep.class("stash-with-unstaged-human-edit-after-ai");
-                    self.known_taint = Some("stash-misses-unstaged-human-edits-after-ai-checkpoint");
+                    self.set_taint("stash-misses-unstaged-human-edits-after-ai-checkpoint", rep);
                 }
                 let o = self.w.git(&["stash", "push", "-u", "-q"]);
                 out.ok = o.ok();
@@ -1880,7 +2084,7 @@ impl Engine {
                         rep.class("stash-restore-file-changed-since-stash");
                         self.pending_stash_shifted = true;
                         if self.known_taint.is_none() {
-                            self.known_taint = Some("stash-restored-onto-changed-file-loses-attribution");
+                            self.set_taint("stash-restored-onto-changed-file-loses-attribution", rep);
                         }
                     }
                 }
@@ -1911,6 +2115,9 @@ impl Engine {
                 }
                 self.w.resync_from_worktree();
                 self.ai_pending = true;
+                if o.ok() || out.conflicted {
+                    self.pending_from_stash = true;
+                }
             }
             HOp::StashDrop => {
                 out.class = OpClass::Destructive;
@@ -2013,7 +2220,8 @@ impl Engine {
             }
         }
         if let Some(t) = self.known_taint {
-            for v in rep.violations.iter_mut() {
+            let from = self.taint_from;
+            for v in rep.violations.iter_mut().skip(from) {
                 if is_misattribution_sig(&v.sig) {
                     v.sig = sig(self.pid, t);
                 }
@@ -2148,7 +2356,7 @@ impl Engine {
                     }
                     rep.judged_strict += 1;
                     rep.violate_key(
-                        sig(self.pid, &format!("attribution-lost-by-{kind}")),
+                        sig(self.pid, &if other.is_some() { format!("attribution-changed-session-by-{kind}") } else { format!("attribution-lost-by-{kind}") }),
                         format!(
                             "[{kind}] line with key {k:?} was attributed to {} before and is {} after; ops: {:?}",
                             h,
@@ -2200,14 +2408,29 @@ impl Engine {
         let o = self.w.rgit(&["rev-list", "-n", &n.to_string(), branch]);
         let srcs: Vec<String> = o.out().lines().map(|s| s.trim().to_string()).collect();
         let mut src_ai: BTreeMap<String, String> = BTreeMap::new();
+        // raw lines (terminator included) of the source tip: a line that a later source
+        // commit re-touched (white space, line terminator) belongs to that commit there
+        // (observation O1) and is not owed to the session any more
+        let mut tip_raw: BTreeMap<String, BTreeSet<Vec<u8>>> = BTreeMap::new();
         for c in &srcs {
             if let Some(Ok(note)) = self.w.note(c) {
                 for f in &note.files {
-                    let Some(lines) = self.w.lines_at(c, &f.path) else { continue };
+                    let Some(bytes) = self.w.blob_at(c, &f.path) else { continue };
+                    let raw: Vec<&[u8]> = bytes.split_inclusive(|b| *b == b'\n').collect();
+                    let tip = tip_raw.entry(f.path.clone()).or_insert_with(|| {
+                        self.w
+                            .blob_at(branch, &f.path)
+                            .map(|b| b.split_inclusive(|x| *x == b'\n').map(|l| l.to_vec()).collect())
+                            .unwrap_or_default()
+                    });
                     for e in &f.entries {
                         for l in e.lines() {
-                            if let Some(t) = lines.get((l - 1) as usize) {
-                                src_ai.insert(key_of(t), e.hash.clone());
+                            if let Some(t) = raw.get((l - 1) as usize) {
+                                if !tip.contains(*t) {
+                                    rep.count("carried_lines_retouched_later_in_source", 1);
+                                    continue;
+                                }
+                                src_ai.insert(key_of(&String::from_utf8_lossy(t)), e.hash.clone());
                             }
                         }
                     }
@@ -2228,14 +2451,18 @@ impl Engine {
             if self.w.model.map.get(k).map(|e| self.w.hash_of(e.last).as_deref() != Some(h.as_str())).unwrap_or(true) {
                 continue;
             }
-            let conflict_zone = self.w.model.map.get(k).map(|e| !e.also_ok.is_empty()).unwrap_or(false);
+            let conflict_zone = self.w.model.map.get(k).map(|e| !e.also_ok.is_empty() || !e.ws_touchers.is_empty()).unwrap_or(false);
             if after.get(k) != Some(h) && !conflict_zone {
-                rep.violate(
-                    sig(self.pid, &format!("attribution-not-carried-by-{kind}")),
+                rep.violate_key(
+                    sig(
+                        self.pid,
+                        &if after.contains_key(k) { format!("attribution-carried-to-wrong-session-by-{kind}") } else { format!("attribution-not-carried-by-{kind}") },
+                    ),
                     format!(
                         "[{kind}] line {k:?} is attributed to {h} in the source commit's note but to {} after the operation",
                         after.get(k).map(|s| s.as_str()).unwrap_or("human")
                     ),
+                    k,
                 );
             } else {
                 rep.judged_strict += 1;
